@@ -246,7 +246,7 @@ func c33BuildSeq(a [][]byte) *Case {
 		}
 		op, e := a[i][0], int(a[i+1][0]-'0')
 		switch op {
-		case 'W':
+		case 'W', 'S': // S = the io.StringWriter entry point (WriteString through io.WriteString): the same write event
 			x, ok := c33Atoi(a[i+2])
 			if !ok || e < 1 || e > 2 || x/256 > 3<<20 {
 				return nil
@@ -254,7 +254,17 @@ func c33BuildSeq(a [][]byte) *Case {
 			p := c33Payload(x%256, x/256)
 			buf := append([]byte(nil), p...) // the writer's own buffer: reused (scribbled) as soon as Write returns
 			conns[e].SetWriteDeadline(expired)
-			n, err := conns[e].Write(buf)
+			var n int
+			var err error
+			if op == 'S' {
+				n, err = io.WriteString(conns[e], string(p))
+				tags["seq-writestring"] = true
+				if closed {
+					tags["seq-writestring-after-close"] = true
+				}
+			} else {
+				n, err = conns[e].Write(buf)
+			}
 			c33Scribble(buf)
 			switch err {
 			case nil:
@@ -363,6 +373,9 @@ func c33BuildSeq(a [][]byte) *Case {
 		conns[e].SetWriteDeadline(expired)
 		if _, err := conns[e].Write([]byte{1}); err != fasthttputil.ErrConnectionClosed {
 			fail("write-after-close-succeeded", "Write at end %d after Close returned %v, want ErrConnectionClosed", e, err)
+		}
+		if n, err := io.WriteString(conns[e], "\x02"); err != fasthttputil.ErrConnectionClosed || n != 0 {
+			fail("write-after-close-succeeded", "WriteString at end %d after Close returned (%d, %v), want (0, ErrConnectionClosed)", e, n, err)
 		}
 	}
 	for e := 1; e <= 2; e++ {
@@ -511,7 +524,18 @@ func c33BuildBigW(a [][]byte) *Case {
 	rc := make(chan res, 1)
 	done := make(chan struct{})
 	wbuf := append([]byte(nil), data...)
-	go func() { n, err := w.Write(wbuf); c33Scribble(wbuf); rc <- res{n, err}; close(done) }()
+	go func() {
+		var n int
+		var err error
+		if seed%2 == 1 {
+			n, err = io.WriteString(w, string(data)) // the io.StringWriter entry point
+		} else {
+			n, err = w.Write(wbuf)
+		}
+		c33Scribble(wbuf)
+		rc <- res{n, err}
+		close(done)
+	}()
 	if !c33WaitCh(done) {
 		pc.Close()
 		return &Case{Impl: "write stuck", Tags: []string{"bigw"}, Judge: func([]string) Verdict {
@@ -644,7 +668,13 @@ func c33BuildConc(a [][]byte) *Case {
 			startedAfterClose := closeReturned.Load()
 			p := c33Chunk(sd, k, sz)
 			buf := append([]byte(nil), p...)
-			n, err := c.Write(buf)
+			var n int
+			var err error
+			if (k+sd)%3 == 0 {
+				n, err = io.WriteString(c, string(p)) // the io.StringWriter entry point
+			} else {
+				n, err = c.Write(buf)
+			}
 			c33Scribble(buf)
 			if err == nil {
 				if n != len(p) {
@@ -1374,7 +1404,13 @@ func c33GenSeq(r *Rand, emit func(string, ...[]byte)) {
 			return 1 + r.Intn(8192)
 		}
 	}
-	w := func(e int) { op('W', e, size()*256+r.Intn(256)) }
+	w := func(e int) {
+		c := byte('W')
+		if r.Chance(35) {
+			c = 'S' // WriteString
+		}
+		op(c, e, size()*256+r.Intn(256))
+	}
 	n := 1 + r.Intn(30)
 	if r.Chance(30) {
 		n = 1 + r.Intn(8)
@@ -1523,7 +1559,8 @@ func c33GenLnConc(r *Rand, emit func(string, ...[]byte)) {
 func init() {
 	Register(&Prop{
 		ID: "C33",
-		Rule: "every slice passed to Write is overwritten by the harness as soon as Write returns (Write must not retain p), so the peer must read the bytes as they were at the call; " +
+		Rule: "writes go through both exported entry points: Write and WriteString (io.WriteString, about a third of the writes in seq/conc/bigw, also after Close and with expired deadlines); " +
+			"every slice passed to Write is overwritten by the harness as soon as Write returns (Write must not retain p), so the peer must read the bytes as they were at the call; " +
 			"bigw also covers 2^k-1, 2^k, 2^k+1 for k = 10..20; " +
 			"bigw: one Write of 256 KiB+1..2 MiB with 0..4 buffers pending and a peer that is not reading, under an expired / 3 ms write deadline, a Close 3 ms later or a late small read; whatever (n, err) it returns the peer must read exactly pending ++ data[:n] then EOF (all boundary sizes x pending with expired deadline + a timed sample); " +
 			"seq additionally gets sequences with big writes compared with the model; " +
